@@ -507,7 +507,14 @@ fn callee(rng: &mut StdRng, kind: u32) -> Vec<Instruction> {
     for k in 0..6u8 { p.push(op::movi(r(k), rng.gen_range(0..0x40000))); }
     p.push(op::lw(r(8), RegId::FP, 73));                 // param a
     p.push(op::lw(r(9), RegId::FP, 74));                 // param b
-    match kind % 9 {
+    match kind % 10 {
+        9 => {                                           // hog: allocates all memory down to 64 bytes above its $sp and returns -
+            p.push(op::sub(r(4), RegId::HP, RegId::SP)); // the heap stays allocated, so the frame of the NEXT call cannot fit
+            p.push(op::subi(r(4), r(4), 64));            // between $sp and $hp (MemoryGrowthOverlap)
+            p.push(op::aloc(r(4)));
+            p.push(op::sw(RegId::HP, r(1), 0));          // a canary at the bottom of the heap
+            p.push(op::ret(RegId::HP));
+        }
         0 => { p.push(op::ret(r(8))); }
         1 => {                                           // return data of length a from the heap
             p.push(op::aloc(r(8)));
@@ -579,16 +586,16 @@ fn calls(o: &Opts, out: &mut Out, run: &mut u64) {
     for k in 0..n {
         let mut tb = TestBuilder::new(o.seed.wrapping_add(k as u64));
         let asset: AssetId = if k % 3 == 0 { AssetId::zeroed() } else { rng.gen() };
-        let kind = [0u32, 1, 2, 3, 3, 4, 5, 6, 7, 8, 8][rng.gen_range(0..11)];   // the recursive shapes (3, 8) twice as often
+        let kind = [0u32, 1, 2, 3, 3, 4, 5, 6, 7, 8, 8, 9][rng.gen_range(0..12)];   // the recursive shapes (3, 8) twice as often
         // (the recursive shape forwards coins to itself: it always holds some of the asset)
         let c1 = tb.setup_contract(callee(&mut rng, kind), if k % 4 == 0 || kind == 3 { Some((asset, rng.gen_range(if kind == 3 { 10 } else { 0 }..1000))) } else { None }, None).contract_id;
         let k2 = rng.gen_range(0..3u32); let c2 = tb.setup_contract(callee(&mut rng, k2), None, None).contract_id;
         let not_input: ContractId = rng.gen();
         let target = match rng.gen_range(0..12) { 0 => not_input, 1 => c2, _ => c1 };
-        let (a, b) = (match kind % 9 { 1 => [0u64, 1, 7, 8, 33, 1000, 70000][rng.gen_range(0..7)], 3 | 8 => rng.gen_range(0..if thorough { 30 } else { 6 }), _ => rng.gen_range(0..100) },
+        let (a, b) = (match kind % 10 { 1 => [0u64, 1, 7, 8, 33, 1000, 70000][rng.gen_range(0..7)], 3 | 8 => rng.gen_range(0..if thorough { 30 } else { 6 }), _ => rng.gen_range(0..100) },
                       if kind == 3 { (rng.gen::<u64>() & !3) | [1u64, 2, 3, 0][rng.gen_range(0..4)] } else { rng.gen::<u64>() });   // kind 3 forwards b mod 4 coins to itself
         let amount: u64 = match rng.gen_range(0..5) { 0 => 0, 1 => 1, 2 => 500, 3 => 1_000_000, _ => rng.gen_range(0..2000) };
-        let fwd: u64 = match rng.gen_range(0..6) { 0 => 0, 1 => rng.gen_range(0..300), 2 => u64::MAX, _ => 1_000_000 };
+        let fwd: u64 = if kind == 9 { u64::MAX } else { match rng.gen_range(0..6) { 0 => 0, 1 => rng.gen_range(0..300), 2 => u64::MAX, _ => 1_000_000 } };
         let mut data = Call::new(target, a, b).to_bytes();
         data.extend_from_slice(asset.as_ref());
         let r = |k: u8| RegId::new(0x10 + k);
@@ -600,11 +607,13 @@ fn calls(o: &Opts, out: &mut Out, run: &mut u64) {
         sc.push(op::movi(r(2), (amount & 0x3ffff) as u32));
         if fwd == u64::MAX { sc.push(op::move_(r(3), RegId::CGAS)); } else { sc.push(op::movi(r(3), (fwd & 0x3ffff) as u32)); }
         sc.push(op::call(r(0), r(2), r(1), r(3)));
-        if rng.gen_bool(0.4) { sc.push(op::call(r(0), RegId::ZERO, r(1), r(3))); }       // a second call
+        if kind == 9 { sc.push(op::cfei(400)); }   // after the hog returned, frame + 64 bytes are free: with 400 of them taken the next frame cannot fit
+        if rng.gen_bool(0.4) || kind == 9 { sc.push(op::call(r(0), RegId::ZERO, r(1), r(3))); }       // a second call
+        if kind == 9 { sc.push(op::lw(r(5), RegId::HP, 0)); sc.push(op::log(r(5), RegId::HP, RegId::SP, RegId::ZERO)); }
         sc.push(op::lw(r(4), RegId::SSP, 0));
         sc.push(op::log(RegId::RET, RegId::RETL, r(4), r(25)));
         sc.push(op::ret(RegId::RET));
-        tb.start_script(sc, data).gas_price(0).script_gas_limit(match rng.gen_range(0..5) { 0 => rng.gen_range(0..2000), _ => 200_000 })
+        tb.start_script(sc, data).gas_price(0).script_gas_limit(if kind == 9 { 5_000_000 } else { match rng.gen_range(0..5) { 0 => rng.gen_range(0..2000), _ => 200_000 } })
             .contract_input(c1).contract_input(c2);
         if amount > 0 || rng.gen_bool(0.5) { tb.coin_input(asset, match rng.gen_range(0..3) { 0 => amount.saturating_sub(1), _ => amount + rng.gen_range(0..50) }); tb.change_output(asset); }
         tb.fee_input().contract_output(&c1).contract_output(&c2);
